@@ -280,6 +280,10 @@ def run(ctx):
 
     # ---------------------------------------------------------------- N5
     check_routines(ctx)
+    # "our offer" is what the configuration lists: the loader translates the algorithm lists name by name, in the listed order,
+    # without dropping, merging or re-ordering entries (aes128 and aes256 share type and id and differ in the key length only)
+    from .c19 import check_crypto_algs
+    check_crypto_algs(ctx, 'N5')
 
     # ---------------------------------------------------------------- N6
     fi = ctx.func(IKESA + '._process_create_child_sa_negotiation_req')
@@ -310,20 +314,20 @@ def run(ctx):
               key=('N6', 'table'), site=ctx.site(fe, fe.node))
 
 
-def check_routines(ctx):
+def check_routines(ctx, rule='N5'):
     th = ctx.func('message.Transform.__hash__')
     T = ctx.sval(th)
     r = strip_ids(T.ret())
     ok = tq.is_call(r, 'builtins.hash') and list(tq.args(r).values())[0][0] == 'tuple' and \
         sorted(tq.text(x) for x in list(tq.args(r).values())[0][1]) == ['self.id', 'self.keylen', 'self.type']
-    ctx.check(ok, 'N5', 'Transform identity covers exactly (type, id, keylen)', key=('N5', 'transform-hash'), site=ctx.site(th, th.node))
+    ctx.check(ok, rule, 'Transform identity covers exactly (type, id, keylen)', key=(rule, 'transform-hash'), site=ctx.site(th, th.node))
     te = ctx.func('message.Transform.__eq__')
     E = ctx.sval(te)
     o = te.call_params()[0]
     r = strip_ids(E.ret())
     ok = r in (strip_ids(E.expr('hash(self) == hash(%s)' % o)),
                strip_ids(E.expr('(self.type, self.id, self.keylen) == (%s.type, %s.id, %s.keylen)' % (o, o, o))))
-    ctx.check(ok, 'N5', 'Transform equality is identity of (type, id, keylen)', key=('N5', 'transform-eq'), site=ctx.site(te, te.node),
+    ctx.check(ok, rule, 'Transform equality is identity of (type, id, keylen)', key=(rule, 'transform-eq'), site=ctx.site(te, te.node),
               detail={'returned': tq.text(r)})
     it = ctx.func('message.Proposal.intersection')
     I = ctx.sval(it)
@@ -367,26 +371,26 @@ def check_routines(ctx):
             cover = [a_ for a_ in pc if a_[0][0] == 'cmp' and a_[0][1] == '==' and tq.find_calls(a_[0], 'builtins.set')]
             ok = ok and len(cover) == 1 and cover[0][1] is True and tq.contains(cover[0][0], d) and tq.contains(
                 cover[0][0], strip_ids(I.expr('set(x.type for x in self.transforms)')))
-    ctx.check(ok and all(t == NONE for _, t in none), 'N5', 'Proposal.intersection: same protocol, one transform per local type (a transform '
+    ctx.check(ok and all(t == NONE for _, t in none), rule, 'Proposal.intersection: same protocol, one transform per local type (a transform '
               'both sides list, the first match per type wins), success iff every local type is covered, number and SPI of the peer '
-              'proposal; otherwise None', key=('N5', 'intersection-shape'), site=ctx.site(it, it.node), detail=detail)
+              'proposal; otherwise None', key=(rule, 'intersection-shape'), site=ctx.site(it, it.node), detail=detail)
     # local preference: the loop over our own transforms is the outer one
     loops = [n for n in ast.walk(it.node) if isinstance(n, ast.For)]
     outer = [l for l in loops if not any(l is not k and any(x is l for x in ast.walk(k)) for k in loops)]
-    ctx.check(len(outer) == 1 and id(outer[0].iter) in I.terms and strip_ids(I.terms[id(outer[0].iter)]) == mine_t, 'N5',
+    ctx.check(len(outer) == 1 and id(outer[0].iter) in I.terms and strip_ids(I.terms[id(outer[0].iter)]) == mine_t, rule,
               'Proposal.intersection walks our own transforms in the outer loop (local preference order decides)',
-              key=('N5', 'intersection-preference'), site=ctx.site(it, it.node))
+              key=(rule, 'intersection-preference'), site=ctx.site(it, it.node))
     pe = ctx.func('message.Proposal.__eq__')
     P = ctx.sval(pe)
     o = pe.call_params()[0]
     ctx.check(strip_ids(P.ret()) == strip_ids(P.expr('(self.protocol_id, set(self.transforms)) == (%s.protocol_id, set(%s.transforms))' % (o, o))),
-              'N5', 'Proposal equality compares protocol and the set of transforms', key=('N5', 'proposal-eq'), site=ctx.site(pe, pe.node),
+              rule, 'Proposal equality compares protocol and the set of transforms', key=(rule, 'proposal-eq'), site=ctx.site(pe, pe.node),
               detail={'returned': tq.text(P.ret())})
     isub = ctx.func('message.Proposal.is_subset')
     B = ctx.sval(isub)
     o = isub.call_params()[0]
-    ctx.check(strip_ids(B.ret()) == strip_ids(B.expr('self.intersection(%s) is not None and self.intersection(%s) == self' % (o, o))), 'N5',
-              'is_subset(other) holds iff the intersection with other exists and equals self', key=('N5', 'is-subset'),
+    ctx.check(strip_ids(B.ret()) == strip_ids(B.expr('self.intersection(%s) is not None and self.intersection(%s) == self' % (o, o))), rule,
+              'is_subset(other) holds iff the intersection with other exists and equals self', key=(rule, 'is-subset'),
               site=ctx.site(isub, isub.node), detail={'returned': tq.text(B.ret())})
     sb = ctx.func(SELECT)
     SB = ctx.sval(sb)
@@ -396,13 +400,13 @@ def check_routines(ctx):
     ok = len(rets) == 1 and rets[0][1] == want and strip_ids(rets[0][0]) == norm_pc(((strip_ids(SB.mk_cmp('is', want, NONE)), False),)) \
         and len(SB.raises) == 1 and tq.is_call(SB.raises[0][1], 'new message.NoProposalChosen') and not SB.raises[0][0] \
         and not SB.exit_envs[len(rets):]
-    ctx.check(ok, 'N5', '_select_best_sa_proposal returns the intersection with the first acceptable peer proposal, in the '
-              'order received, else raises NoProposalChosen', key=('N5', 'first-acceptable'), site=ctx.site(sb, sb.node),
+    ctx.check(ok, rule, '_select_best_sa_proposal returns the intersection with the first acceptable peer proposal, in the '
+              'order received, else raises NoProposalChosen', key=(rule, 'first-acceptable'), site=ctx.site(sb, sb.node),
               detail={'returns': [(tq.text(t, 200), [tq.text(a[0], 120) for a in pc]) for pc, t in rets]})
     gt = ctx.func('message.Proposal.get_transform')
     G = ctx.sval(gt)
-    ctx.check(strip_ids(G.ret()) == strip_ids(G.expr('next(x for x in self.transforms if x.type == %s)' % gt.call_params()[0])), 'N5',
-              'get_transform returns the first transform of the type', key=('N5', 'get-transform'), site=ctx.site(gt, gt.node))
+    ctx.check(strip_ids(G.ret()) == strip_ids(G.expr('next(x for x in self.transforms if x.type == %s)' % gt.call_params()[0])), rule,
+              'get_transform returns the first transform of the type', key=(rule, 'get-transform'), site=ctx.site(gt, gt.node))
 
 
 MANIFEST = {
